@@ -404,10 +404,22 @@ def RecShapeD (E : Env) (f : Fwd) (o : Id) (t : T) (l : Id) : Prop :=
   (t = E.t0 o ∧ ∃ ids, f.initShape = some ids ∧ l ∈ ids) ∨
   (E.kind o = Kind.dynTraj ∧ ∃ d, f.predShape = some d ∧ itemsMem d t l)
 
-/-- every recorded shape set is the lookup answer (for a time step of the horizon), and a recorded shape set comes with a
-    recorded centre set -/
+/-- the shape lookup as far as the code consults it: never for a SetBasedPrediction (whose sets stay `set()`) -/
+def effShp (E : Env) (o : Id) (t : T) : List Id := if E.kind o = Kind.dynSet then [] else E.shp o t
+
+theorem mem_effShp {E : Env} {o l : Id} {t : T} : l ∈ effShp E o t ↔ (E.kind o ≠ Kind.dynSet ∧ l ∈ E.shp o t) := by
+  unfold effShp
+  split
+  · next h => simp [h]
+  · next h => simp [h]
+
+theorem effShp_of_ne {E : Env} {o : Id} (t : T) (h : E.kind o ≠ Kind.dynSet) : effShp E o t = E.shp o t := by
+  unfold effShp; rw [if_neg h]
+
+/-- every recorded shape set is the lookup answer (for a time step of the horizon; `set()` for a set-based prediction), and a
+    recorded shape set comes with a recorded centre set -/
 structure Coh (E : Env) (f : Fwd) (o : Id) : Prop where
-  initShape : ∀ ids, f.initShape = some ids → ids = E.shp o (E.t0 o)
+  initShape : ∀ ids, f.initShape = some ids → ids = effShp E o (E.t0 o)
   predShape : ∀ d, f.predShape = some d → ∀ t ids, (t, ids) ∈ d → ids = E.shp o t ∧ E.t0 o ≤ t ∧ t ≤ E.tf o
   center : ∀ ids, f.initShape = some ids → f.initCenter.isSome
 
@@ -426,16 +438,25 @@ theorem InvOn.congr {P Q : Id → Prop} {E : Env} {s : St} (h : ∀ x, P x ↔ Q
     invS := fun l o => by rw [hi.invS, h],
     invD := fun l t o => by rw [hi.invD, h] }
 
-theorem RecShapeS.mem_lanelets {E : Env} {f : Fwd} {o l : Id} (hc : Coh E f o) (h : RecShapeS f l) :
-    l ∈ E.shp o (E.t0 o) := by
+theorem RecShapeD.not_set {E : Env} {f : Fwd} {o l : Id} {t : T} (hc : Coh E f o) (h : RecShapeD E f o t l) :
+    E.kind o ≠ Kind.dynSet := by
+  rcases h with ⟨_, ids, h1, h2⟩ | ⟨hk, _⟩
+  · rw [hc.initShape ids h1] at h2; exact (mem_effShp.mp h2).1
+  · rw [hk]; intro h; cases h
+
+theorem RecShapeS.mem_eff {E : Env} {f : Fwd} {o l : Id} (hc : Coh E f o) (h : RecShapeS f l) :
+    l ∈ effShp E o (E.t0 o) := by
   obtain ⟨ids, h1, h2⟩ := h
   rw [← hc.initShape ids h1]; exact h2
+
+theorem RecShapeS.mem_lanelets {E : Env} {f : Fwd} {o l : Id} (hc : Coh E f o) (h : RecShapeS f l) :
+    l ∈ E.shp o (E.t0 o) := (mem_effShp.mp (RecShapeS.mem_eff hc h)).2
 
 /-- a recorded pair is a true pair of the lookup, inside the horizon -/
 theorem RecShapeD.sound {E : Env} {f : Fwd} {o l : Id} {t : T} (hc : Coh E f o) (h : RecShapeD E f o t l) :
     l ∈ E.shp o t ∧ (t = E.t0 o ∨ (E.kind o = Kind.dynTraj ∧ E.t0 o ≤ t ∧ t ≤ E.tf o)) := by
   rcases h with ⟨rfl, ids, h1, h2⟩ | ⟨hk, d, h1, ids, h2, h3⟩
-  · rw [← hc.initShape ids h1]; exact ⟨h2, Or.inl rfl⟩
+  · rw [hc.initShape ids h1] at h2; exact ⟨(mem_effShp.mp h2).2, Or.inl rfl⟩
   · obtain ⟨e, h4, h5⟩ := hc.predShape d h1 t ids h2
     rw [← e]; exact ⟨h3, Or.inr ⟨hk, h4, h5⟩⟩
 
@@ -530,7 +551,8 @@ theorem addToLanelets_spec (E : Env) (s s' : St) (o : Id) (h : addToLanelets E s
     (E.kind o = Kind.static → s'.dreg = s.dreg ∧
       ∀ l x, x ∈ s'.sreg l ↔ x ∈ s.sreg l ∨ (x = o ∧ E.lanelets ≠ [] ∧ RecShapeS (s.fwd o) l)) ∧
     (E.kind o ≠ Kind.static → s'.sreg = s.sreg ∧
-      ∀ l t x, memD s'.dreg l t x ↔ memD s.dreg l t x ∨ (x = o ∧ E.lanelets ≠ [] ∧ RecShapeD E (s.fwd o) o t l)) := by
+      ∀ l t x, memD s'.dreg l t x ↔ memD s.dreg l t x ∨
+        (x = o ∧ ¬(E.kind o = Kind.dynSet ∨ E.lanelets = []) ∧ RecShapeD E (s.fwd o) o t l)) := by
   unfold addToLanelets at h
   split at h
   · next hk =>
@@ -550,13 +572,13 @@ theorem addToLanelets_spec (E : Env) (s s' : St) (o : Id) (h : addToLanelets E s
       refine ⟨rfl, rfl, rfl, fun e => absurd e hk, fun _ => ⟨rfl, fun l t x => ?_⟩⟩
       show memD r2 l t x ↔ _
       rw [regPred_spec E o _ _ _ hr2, (regInit_spec E o _ _ _ hr1).2]
-      simp only [RecShapeD, hl, ne_eq, not_false_eq_true, true_and]
+      simp only [RecShapeD]
       constructor
       · rintro ((h | ⟨rfl, h⟩) | ⟨rfl, h⟩)
         · exact Or.inl h
-        · exact Or.inr ⟨rfl, Or.inl h⟩
-        · exact Or.inr ⟨rfl, Or.inr h⟩
-      · rintro (h | ⟨rfl, (h | h)⟩)
+        · exact Or.inr ⟨rfl, hl, Or.inl h⟩
+        · exact Or.inr ⟨rfl, hl, Or.inr h⟩
+      · rintro (h | ⟨rfl, _, (h | h)⟩)
         · exact Or.inl (Or.inl h)
         · exact Or.inl (Or.inr ⟨rfl, h⟩)
         · exact Or.inr ⟨rfl, h⟩
@@ -613,7 +635,10 @@ theorem invOn_addToLanelets {P : Id → Prop} {E : Env} {s s' : St} {o : Id} (hw
         · exact ⟨Or.inr rfl, hod, h3⟩
       · rintro ⟨(h1 | rfl), h2, h3⟩
         · exact Or.inl ⟨h1, h2, h3⟩
-        · exact Or.inr ⟨rfl, ne_nil_of_mem (hw.shp_sub _ _ _ (RecShapeD.sound (hi.coh _) h3).1), h3⟩
+        · refine Or.inr ⟨rfl, ?_, h3⟩
+          rintro (h4 | h4)
+          · exact RecShapeD.not_set (hi.coh _) h3 h4
+          · exact ne_nil_of_mem (hw.shp_sub _ _ _ (RecShapeD.sound (hi.coh _) h3).1) h4
 
 /-! ### add_objects / remove_obstacle keep the invariant -/
 
@@ -705,9 +730,13 @@ theorem inv_remove {E : Env} {s s' : St} {o : Id} (hw : WfEnv E) (hi : Inv E s) 
         rw [hi.invD]
         simp only [true_and, List.mem_filter, decide_eq_true_eq]
         constructor
-        · rintro ⟨_, h2⟩
-          have := hw.shp_sub _ _ _ (RecShapeD.sound (hi.coh _) h2).1
-          rw [hl] at this; cases this
+        · rintro ⟨h1, h2⟩
+          refine ⟨⟨h1, ?_⟩, h2⟩
+          rintro rfl
+          rcases hl with hl | hl
+          · exact RecShapeD.not_set (hi.coh _) h2 hl
+          · have := hw.shp_sub _ _ _ (RecShapeD.sound (hi.coh _) h2).1
+            rw [hl] at this; cases this
         · rintro ⟨⟨h1, _⟩, h2⟩; exact ⟨h1, h2⟩
       · next hl =>
         obtain ⟨r1, hr1, h⟩ := bind_ok.mp h
@@ -751,7 +780,7 @@ theorem tf_ge (E : Env) (o : Id) : E.t0 o ≤ E.tf o := by
   exact Int.le_add_of_nonneg_right (Int.natCast_nonneg _)
 
 /-- effect of one shape-based assignment at an admissible time step on the recorded relation -/
-theorem assign_rec {E : Env} {o : Id} {f f3 : Fwd} {t : T} (hc : Coh E f o)
+theorem assign_rec {E : Env} {o : Id} {f f3 : Fwd} {t : T} (hc : Coh E f o) (hns : E.kind o ≠ Kind.dynSet)
     (ht : t = E.t0 o ∨ (E.kind o = Kind.dynTraj ∧ E.t0 o ≤ t ∧ t ≤ E.tf o))
     (h1 : f3.initShape = (if t = E.t0 o then some (E.shp o t) else f.initShape))
     (h2 : f3.initCenter = (if t = E.t0 o then some (E.cen o t) else f.initCenter))
@@ -765,7 +794,7 @@ theorem assign_rec {E : Env} {o : Id} {f f3 : Fwd} {t : T} (hc : Coh E f o)
   · intro ids hi
     rw [h1] at hi
     split at hi
-    · next e => cases hi; rw [e]
+    · next e => cases hi; rw [e, effShp_of_ne _ hns]
     · exact hc.initShape ids hi
   · intro d hd t' ids hm
     by_cases hk : E.kind o = Kind.dynTraj
@@ -803,7 +832,7 @@ theorem assign_rec {E : Env} {o : Id} {f f3 : Fwd} {t : T} (hc : Coh E f o)
           · exact Or.inl (Or.inr h)
           · exact Or.inr ⟨rfl, h⟩
         · rintro ((⟨rfl, ids, h5, h6⟩ | h) | ⟨rfl, h⟩)
-          · rw [hc.initShape ids h5] at h6; exact Or.inl ⟨rfl, h6⟩
+          · rw [hc.initShape ids h5] at h6; exact Or.inl ⟨rfl, (mem_effShp.mp h6).2⟩
           · exact Or.inr (Or.inl h)
           · exact Or.inl ⟨rfl, h⟩
       · simp only [e, if_false]
@@ -817,11 +846,12 @@ theorem assign_rec {E : Env} {o : Id} {f f3 : Fwd} {t : T} (hc : Coh E f o)
       constructor
       · rintro ⟨rfl, h⟩; exact Or.inr ⟨rfl, h⟩
       · rintro (⟨rfl, ids, h5, h6⟩ | ⟨rfl, h⟩)
-        · rw [hc.initShape ids h5] at h6; exact ⟨rfl, h6⟩
+        · rw [hc.initShape ids h5] at h6; exact ⟨rfl, (mem_effShp.mp h6).2⟩
         · exact ⟨rfl, h⟩
 
 theorem assignFwd_false (E : Env) (o : Id) (f : Fwd) (t : T) (lids : List Id) (f3 : Fwd)
     (h : assignFwd E false o f t = .ok (lids, f3)) :
+    E.kind o ≠ Kind.dynSet ∧
     lids = E.shp o t ∧
     f3.initShape = (if t = E.t0 o then some (E.shp o t) else f.initShape) ∧
     f3.initCenter = (if t = E.t0 o then some (E.cen o t) else f.initCenter) ∧
@@ -829,6 +859,10 @@ theorem assignFwd_false (E : Env) (o : Id) (f : Fwd) (t : T) (lids : List Id) (f
         f3.predCenter = some (dictSet dc t (E.cen o t)) ∧ f3.predShape = some (dictSet ds t (E.shp o t))) ∧
     (E.kind o ≠ Kind.dynTraj → f3.predCenter = f.predCenter ∧ f3.predShape = f.predShape) := by
   unfold assignFwd at h
+  by_cases hset : E.kind o = Kind.dynSet
+  · rw [if_pos hset] at h; cases h
+  rw [if_neg hset] at h
+  refine ⟨hset, ?_⟩
   by_cases hk : E.kind o = Kind.dynTraj
   · simp only [hk, if_true, Bool.false_eq_true, if_false] at h
     cases hc : f.predCenter with
@@ -880,9 +914,9 @@ theorem inv_assignDynAt {E : Env} {s s' : St} {o : Id} {t : T} (hi : Inv E s) (h
         · right
           have h5 : ¬(E.kind o ≠ Kind.dynTraj ∨ E.tf o < t) := fun h6 => hskip ⟨e, h6⟩
           refine ⟨Classical.not_not.mp (fun h6 => h5 (Or.inl h6)), Int.not_lt.mp hlt, Int.not_lt.mp (fun h6 => h5 (Or.inr h6))⟩
-      obtain ⟨e0, e1, e2, e3, e4⟩ := assignFwd_false E o _ t lids f3 ha
+      obtain ⟨ens, e0, e1, e2, e3, e4⟩ := assignFwd_false E o _ t lids f3 ha
       subst e0
-      obtain ⟨c1, _, c3⟩ := assign_rec (hi.coh o) ht e1 e2 e3 e4
+      obtain ⟨c1, _, c3⟩ := assign_rec (hi.coh o) ens ht e1 e2 e3 e4
       obtain ⟨_, hreg⟩ := regDyn_spec E o t _ _ _ hr
       have hns : o ∉ s.statics := fun h6 => hi.kindD o hod (hi.kindS o h6)
       refine ⟨⟨?_, hi.kindS, hi.kindD, ?_, ?_⟩, rfl, rfl⟩
@@ -924,7 +958,8 @@ theorem inv_assignStatic {E : Env} {s s' : St} {o : Id} (hi : Inv E s) (hos : o 
     · next e =>
       subst e
       refine ⟨?_, ?_, ?_⟩
-      · intro ids hids; cases hids; rfl
+      · intro ids hids; cases hids
+        exact (effShp_of_ne _ (by rw [hi.kindS x hos]; intro h; cases h)).symm
       · intro d hd; exact (hi.coh x).predShape d hd
       · intro ids _; rfl
     · exact hi.coh x
@@ -937,7 +972,7 @@ theorem inv_assignStatic {E : Env} {s s' : St} {o : Id} (hi : Inv E s) (hos : o 
       constructor
       · rintro (h6 | h6)
         · obtain ⟨ids, h7, h8⟩ := h6
-          rw [(hi.coh x).initShape ids h7] at h8; exact h8
+          rw [(hi.coh x).initShape ids h7] at h8; exact (mem_effShp.mp h8).2
         · exact h6
       · intro h6; exact Or.inr h6
     · simp [e]
@@ -1004,7 +1039,9 @@ theorem inv_assignObs {E : Env} {s s' : St} {o : Id} {ts : Option (List T)} (hi 
       split <;> rfl
     have e3 : (if E.kind o = Kind.dynTraj then s.setFwd o (initDicts false (s.fwd o)) else s).dynamics = s.dynamics := by
       split <;> rfl
-    exact key _ hs1 e2 e3 _ h
+    split at h
+    · cases h
+    · exact key _ hs1 e2 e3 _ h
   · split at h
     · next hos => exact inv_assignStatic hi hos h
     · cases h
@@ -1061,7 +1098,8 @@ theorem invOn_readObs {P : Id → Prop} {E : Env} {s s' : St} {o : Id} (hi : Inv
       · next e =>
         subst e
         refine ⟨?_, ?_, ?_⟩
-        · intro ids hids; cases hids; rfl
+        · intro ids hids; cases hids
+          exact (effShp_of_ne _ (by rw [hk]; intro h; cases h)).symm
         · intro d hd; cases hd
         · intro ids _; rfl
       · exact hi.coh x
@@ -1073,7 +1111,7 @@ theorem invOn_readObs {P : Id → Prop} {E : Env} {s s' : St} {o : Id} (hi : Inv
         simp only [or_true, true_and, if_true, hos, recShapeS_mk]
         constructor
         · rintro (⟨_, ids, h7, h8⟩ | h6)
-          · rw [(hi.coh x).initShape ids h7] at h8; exact h8
+          · rw [(hi.coh x).initShape ids h7] at h8; exact (mem_effShp.mp h8).2
           · exact h6
         · intro h6; exact Or.inr h6
       · simp [e]
@@ -1090,6 +1128,38 @@ theorem invOn_readObs {P : Id → Prop} {E : Env} {s s' : St} {o : Id} (hi : Inv
       · exact h'
     have hns : o ∉ s.statics := fun h6 => hk (hi.kindS o h6)
     unfold readDynamic at h
+    split at h
+    · next hset =>
+      -- set-based prediction: `set()` is recorded, nothing is registered
+      cases h
+      refine ⟨⟨?_, hi.kindS, hi.kindD, ?_, ?_⟩, rfl, rfl⟩
+      · intro x
+        simp only [setFwd_fwd]
+        split
+        · next e =>
+          subst e
+          refine ⟨?_, ?_, ?_⟩
+          · intro ids hids; cases hids
+            unfold effShp; rw [if_pos hset]
+          · intro d hd; cases hd
+          · intro ids _; rfl
+        · exact hi.coh x
+      · intro l x
+        simp only [setFwd_fwd, setFwd_statics, setFwd_sreg]
+        rw [hi.invS]
+        by_cases e : x = o
+        · subst e; simp [hns]
+        · simp [e]
+      · intro l t x
+        simp only [setFwd_fwd, setFwd_dynamics, setFwd_dreg]
+        rw [hi.invD]
+        by_cases e : x = o
+        · subst e
+          simp only [or_true, true_and, if_true, hod, recShapeD_mk_none, List.not_mem_nil, and_false, iff_false]
+          rintro ⟨_, h3⟩
+          exact RecShapeD.not_set (hi.coh x) h3 hset
+        · simp [e]
+    next hset =>
     obtain ⟨r1, hr1, h⟩ := bind_ok.mp h
     obtain ⟨_, hreg1⟩ := regDyn_spec E o _ _ _ _ hr1
     -- what the registries held for `o` before is part of the new relation
@@ -1113,7 +1183,8 @@ theorem invOn_readObs {P : Id → Prop} {E : Env} {s s' : St} {o : Id} (hi : Inv
         · next e =>
           subst e
           refine ⟨?_, ?_, ?_⟩
-          · intro ids hids; cases hids; rfl
+          · intro ids hids; cases hids
+            exact (effShp_of_ne _ hset).symm
           · intro d hd t ids hm
             cases hd
             obtain ⟨a, ha, e1⟩ := List.mem_map.mp hm
@@ -1155,7 +1226,8 @@ theorem invOn_readObs {P : Id → Prop} {E : Env} {s s' : St} {o : Id} (hi : Inv
         · next e =>
           subst e
           refine ⟨?_, ?_, ?_⟩
-          · intro ids hids; cases hids; rfl
+          · intro ids hids; cases hids
+            exact (effShp_of_ne _ hset).symm
           · intro d hd; cases hd
           · intro ids _; rfl
         · exact hi.coh x
@@ -1310,7 +1382,7 @@ theorem assigned_assignDynAt {E : Env} {s s' : St} {o o' : Id} {t t' : T}
     · obtain ⟨⟨lids, f3⟩, ha, h⟩ := bind_ok.mp h
       obtain ⟨r, hr, h⟩ := bind_ok.mp h
       cases pure_ok.mp h
-      obtain ⟨e0, e1, e2, e3, e4⟩ := assignFwd_false E o' _ t' lids f3 ha
+      obtain ⟨_, e0, e1, e2, e3, e4⟩ := assignFwd_false E o' _ t' lids f3 ha
       have hfw : ∀ x, ({ s.setFwd o' f3 with dreg := r } : St).fwd x = if x = o' then f3 else s.fwd x := fun _ => rfl
       constructor
       · intro hA
@@ -1403,7 +1475,9 @@ theorem assignObs_lists {E : Env} {ts : Option (List T)} {co : Bool} {s s' : St}
       rintro x t x' ⟨q2, q3⟩ hx
       obtain ⟨p2, p3⟩ := assignDynAt_lists hx
       exact ⟨p2.trans q2, p3.trans q3⟩
-    exact key _ _ (by split <;> exact ⟨rfl, rfl⟩) h
+    split at h
+    · cases h
+    · exact key _ _ (by split <;> exact ⟨rfl, rfl⟩) h
   · split at h
     · unfold assignStatic at h
       obtain ⟨r, _, h⟩ := bind_ok.mp h
@@ -1421,6 +1495,8 @@ theorem assigned_assignObs {E : Env} {s s' : St} {o o' : Id} {t : T}
   unfold assignObs at h
   split at h
   · next hod =>
+    split at h
+    · cases h
     have hpres : ∀ (x : St) (a : T) (x' : St), Assigned E (x.fwd o) o t → assignDynAt E false o' x a = .ok x' →
         Assigned E (x'.fwd o) o t := fun x a x' hA hx => (assigned_assignDynAt hx).1 hA
     constructor
@@ -1490,7 +1566,7 @@ theorem assigned_assign {E : Env} {s s' : St} (hkS : ∀ x, x ∈ s.statics → 
 /-- a file read records the lookup answers for obstacle `o` over its whole horizon, and keeps what other obstacles carry -/
 theorem assigned_readObs {E : Env} {s s' : St} {o o' : Id} {t : T} (h : readObs E s o' = .ok s') :
     (o ≠ o' → Assigned E (s.fwd o) o t → Assigned E (s'.fwd o) o t) ∧
-    (o = o' → InHorizon E o t → Assigned E (s'.fwd o) o t) := by
+    (o = o' → E.kind o ≠ Kind.dynSet → InHorizon E o t → Assigned E (s'.fwd o) o t) := by
   unfold readObs at h
   split at h
   · next hk =>
@@ -1501,13 +1577,21 @@ theorem assigned_readObs {E : Env} {s s' : St} {o o' : Id} {t : T} (h : readObs 
     · intro hne hA
       show Assigned E ((s.setFwd o' _).fwd o) o t
       rw [setFwd_fwd, if_neg hne]; exact hA
-    · rintro rfl hh
+    · rintro rfl hset hh
       show Assigned E ((s.setFwd o _).fwd o) o t
       rw [setFwd_fwd, if_pos rfl]
       refine ⟨fun et => by rw [et]; exact ⟨rfl, rfl⟩, fun hk' => ?_⟩
       rw [hk] at hk'; cases hk'
   · next hk =>
     unfold readDynamic at h
+    split at h
+    · next hset =>
+      cases h
+      constructor
+      · intro hne hA
+        show Assigned E ((s.setFwd o' _).fwd o) o t
+        rw [setFwd_fwd, if_neg hne]; exact hA
+      · rintro rfl hset' _; exact absurd hset hset'
     obtain ⟨r1, _, h⟩ := bind_ok.mp h
     split at h
     · next hkt =>
@@ -1517,7 +1601,7 @@ theorem assigned_readObs {E : Env} {s s' : St} {o o' : Id} {t : T} (h : readObs 
       · intro hne hA
         show Assigned E ((s.setFwd o' _).fwd o) o t
         rw [setFwd_fwd, if_neg hne]; exact hA
-      · rintro rfl hh
+      · rintro rfl hset hh
         show Assigned E ((s.setFwd o _).fwd o) o t
         rw [setFwd_fwd, if_pos rfl]
         have hm : t ∈ trange (E.t0 o) (E.len o) := by
@@ -1533,7 +1617,7 @@ theorem assigned_readObs {E : Env} {s s' : St} {o o' : Id} {t : T} (h : readObs 
       · intro hne hA
         show Assigned E ((s.setFwd o' _).fwd o) o t
         rw [setFwd_fwd, if_neg hne]; exact hA
-      · rintro rfl hh
+      · rintro rfl hset hh
         show Assigned E ((s.setFwd o _).fwd o) o t
         rw [setFwd_fwd, if_pos rfl]
         have e : t = E.t0 o := by
@@ -1542,10 +1626,10 @@ theorem assigned_readObs {E : Env} {s s' : St} {o o' : Id} {t : T} (h : readObs 
           · exact absurd hk' (fun e => hkt e)
         refine ⟨fun et => by rw [et]; exact ⟨rfl, rfl⟩, fun hk' => absurd hk' (fun e => hkt e)⟩
 
-theorem assigned_readObs_pres {E : Env} {s s' : St} {o o' : Id} {t : T} (hh : InHorizon E o t)
+theorem assigned_readObs_pres {E : Env} {s s' : St} {o o' : Id} {t : T} (hset : E.kind o ≠ Kind.dynSet) (hh : InHorizon E o t)
     (hA : Assigned E (s.fwd o) o t) (h : readObs E s o' = .ok s') : Assigned E (s'.fwd o) o t := by
   by_cases e : o = o'
-  · exact (assigned_readObs h).2 e hh
+  · exact (assigned_readObs h).2 e hset hh
   · exact (assigned_readObs h).1 e hA
 
 theorem assigned_addToLanelets {E : Env} {s s' : St} {o o' : Id} {t : T}
@@ -1553,31 +1637,39 @@ theorem assigned_addToLanelets {E : Env} {s s' : St} {o o' : Id} {t : T}
   rw [(addToLanelets_spec E s s' o' h).1]; exact hA
 
 theorem assigned_reopenXml {E : Env} {s s' : St} (h : reopenXml E s = .ok s') :
-    ∀ o, o ∈ s.statics ++ s.dynamics → ∀ t, InHorizon E o t → Assigned E (s'.fwd o) o t := by
-  intro o ho t hh
+    ∀ o, o ∈ s.statics ++ s.dynamics → E.kind o ≠ Kind.dynSet → ∀ t, InHorizon E o t → Assigned E (s'.fwd o) o t := by
+  intro o ho hset t hh
   unfold reopenXml at h
   obtain ⟨s1, h1, h2⟩ := bind_ok.mp h
   have p1 : Assigned E (s1.fwd o) o t :=
     foldlM_establish (readObs E) (fun x => Assigned E (x.fwd o) o t) o
-      (fun x a x' hA hx => assigned_readObs_pres hh hA hx)
-      (fun x x' hx => (assigned_readObs hx).2 rfl hh) _ _ s1 ho h1
+      (fun x a x' hA hx => assigned_readObs_pres hset hh hA hx)
+      (fun x x' hx => (assigned_readObs hx).2 rfl hset hh) _ _ s1 ho h1
   exact foldlM_inv (addToLanelets E) (fun x => Assigned E (x.fwd o) o t)
     (fun x a x' hA hx => assigned_addToLanelets hA hx) _ s1 s' p1 h2
 
 theorem assigned_reopenPb {E : Env} {s s' : St} (h : reopenPb E s = .ok s') :
-    ∀ o, o ∈ s.statics ++ s.dynamics → ∀ t, InHorizon E o t → Assigned E (s'.fwd o) o t := by
-  intro o ho t hh
+    ∀ o, o ∈ s.statics ++ s.dynamics → E.kind o ≠ Kind.dynSet → ∀ t, InHorizon E o t → Assigned E (s'.fwd o) o t := by
+  intro o ho hset t hh
   unfold reopenPb at h
   refine foldlM_establish (fun s o => do let s' ← readObs E s o; addToLanelets E s' o)
     (fun x => Assigned E (x.fwd o) o t) o ?_ ?_ _ _ s' ho h
   · intro x a x' hA hx
     obtain ⟨x1, hx1, hx2⟩ := bind_ok.mp hx
-    exact assigned_addToLanelets (assigned_readObs_pres hh hA hx1) hx2
+    exact assigned_addToLanelets (assigned_readObs_pres hset hh hA hx1) hx2
   · intro x x' hx
     obtain ⟨x1, hx1, hx2⟩ := bind_ok.mp hx
-    exact assigned_addToLanelets ((assigned_readObs hx1).2 rfl hh) hx2
+    exact assigned_addToLanelets ((assigned_readObs hx1).2 rfl hset hh) hx2
 
 /-! ### totality: removing never fails -/
+
+theorem effShp_nodup {E : Env} (hw : WfEnv E) (o : Id) (t : T) : (effShp E o t).Nodup := by
+  unfold effShp; split
+  · exact List.nodup_nil
+  · exact hw.shp_nodup o t
+
+theorem effShp_sub {E : Env} (hw : WfEnv E) {o l : Id} {t : T} (h : l ∈ effShp E o t) : l ∈ E.lanelets :=
+  hw.shp_sub o t l (mem_effShp.mp h).2
 
 theorem remove_total {E : Env} {s : St} (hw : WfEnv E) (hi : Inv E s) (o : Id) : ∃ s', remove E s o = .ok s' := by
   unfold remove
@@ -1593,9 +1685,9 @@ theorem remove_total {E : Env} {s : St} (hw : WfEnv E) (hi : Inv E s) (o : Id) :
         · exact ⟨_, rfl⟩
         · have e := (hi.coh o).initShape ids hs
           apply unregStatic_ok
-          · rw [e]; exact hw.shp_nodup _ _
+          · rw [e]; exact effShp_nodup hw _ _
           · intro l hl
-            refine ⟨hw.shp_sub o (E.t0 o) l (e ▸ hl), ?_⟩
+            refine ⟨effShp_sub hw (e ▸ hl), ?_⟩
             exact (hi.invS l o).mpr ⟨trivial, hos, ids, hs, hl⟩
     obtain ⟨r, hr⟩ := this
     exact ⟨_, by rw [hr]; rfl⟩
@@ -1612,7 +1704,7 @@ theorem remove_total {E : Env} {s : St} (hw : WfEnv E) (hi : Inv E s) (o : Id) :
             have e := (hi.coh o).initShape ids hs
             apply unregDyn_ok
             intro l hl
-            refine ⟨hw.shp_sub o (E.t0 o) l (e ▸ hl), ?_⟩
+            refine ⟨effShp_sub hw (e ▸ hl), ?_⟩
             obtain ⟨st, h3, _⟩ := (hi.invD l (E.t0 o) o).mpr ⟨trivial, hod, Or.inl ⟨rfl, ids, hs, hl⟩⟩
             rw [h3]; rfl
         obtain ⟨r1, hr1⟩ := h1
@@ -1681,9 +1773,10 @@ theorem foldlM_total {σ α : Type} (f : σ → α → Res σ) (Q : σ → Prop)
 def DictsReady (E : Env) (f : Fwd) (o : Id) : Prop :=
   E.kind o = Kind.dynTraj → f.predCenter.isSome ∧ f.predShape.isSome
 
-theorem assignFwd_ok {E : Env} {o : Id} {f : Fwd} (t : T) (h : DictsReady E f o) :
+theorem assignFwd_ok {E : Env} {o : Id} {f : Fwd} (t : T) (hset : E.kind o ≠ Kind.dynSet) (h : DictsReady E f o) :
     ∃ lids f3, assignFwd E false o f t = .ok (lids, f3) := by
   unfold assignFwd
+  rw [if_neg hset]
   by_cases hk : E.kind o = Kind.dynTraj
   · obtain ⟨h1, h2⟩ := h hk
     obtain ⟨dc, hdc⟩ := Option.isSome_iff_exists.mp h1
@@ -1693,14 +1786,15 @@ theorem assignFwd_ok {E : Env} {o : Id} {f : Fwd} (t : T) (h : DictsReady E f o)
   · simp only [hk, if_false, Bool.false_eq_true, bind, Except.bind, pure, Except.pure]
     exact ⟨_, _, rfl⟩
 
-theorem assignDynAt_total {E : Env} {s : St} {o : Id} {t : T} (hw : WfEnv E) (hr : DictsReady E (s.fwd o) o)
+theorem assignDynAt_total {E : Env} {s : St} {o : Id} {t : T} (hw : WfEnv E) (hset : E.kind o ≠ Kind.dynSet)
+    (hr : DictsReady E (s.fwd o) o)
     (ht : E.t0 o ≤ t) : ∃ s', assignDynAt E false o s t = .ok s' ∧ DictsReady E (s'.fwd o) o := by
   unfold assignDynAt
   split
   · exact ⟨s, rfl, hr⟩
   · rw [if_neg (Int.not_lt.mpr ht)]
-    obtain ⟨lids, f3, ha⟩ := assignFwd_ok t hr
-    obtain ⟨e0, _, _, e3, _⟩ := assignFwd_false E o _ t lids f3 ha
+    obtain ⟨lids, f3, ha⟩ := assignFwd_ok t hset hr
+    obtain ⟨_, e0, _, _, e3, _⟩ := assignFwd_false E o _ t lids f3 ha
     subst e0
     obtain ⟨r, hreg⟩ := regDyn_ok E o t (E.shp o t) s.dreg (fun l hl => hw.shp_sub o t l hl)
     refine ⟨{ s.setFwd o f3 with dreg := r }, ?_, ?_⟩
@@ -1710,11 +1804,14 @@ theorem assignDynAt_total {E : Env} {s : St} {o : Id} {t : T} (hw : WfEnv E) (hr
       show ((s.setFwd o f3).fwd o).predCenter.isSome ∧ ((s.setFwd o f3).fwd o).predShape.isSome
       rw [setFwd_fwd, if_pos rfl, g3, g4]; exact ⟨rfl, rfl⟩
 
-theorem assignObs_total {E : Env} {s : St} {o : Id} (hw : WfEnv E) (hin : o ∈ s.statics ∨ o ∈ s.dynamics) :
+theorem assignObs_total {E : Env} {s : St} {o : Id} (hw : WfEnv E) (hin : o ∈ s.statics ∨ o ∈ s.dynamics)
+    (hset : o ∈ s.dynamics → E.kind o ≠ Kind.dynSet) :
     ∃ s', assignObs E none false s o = .ok s' := by
   unfold assignObs
   split
-  · -- dynamic: every step of the loop is ≥ the initial time step and the dicts exist
+  · next hod =>
+    rw [if_neg (hset hod)]
+    -- dynamic: every step of the loop is ≥ the initial time step and the dicts exist
     have hsteps : ∀ a ∈ (if E.kind o = Kind.dynTraj then trange (E.t0 o) (E.len o) else [E.t0 o]), E.t0 o ≤ a := by
       intro a ha
       split at ha
@@ -1730,7 +1827,7 @@ theorem assignObs_total {E : Env} {s : St} {o : Id} (hw : WfEnv E) (hin : o ∈ 
       · show (if (!false && (s.fwd o).predShape.isNone) then some [] else (s.fwd o).predShape).isSome
         cases (s.fwd o).predShape <;> rfl
     obtain ⟨s', h1, _⟩ := foldlM_total (assignDynAt E false o) (fun x => DictsReady E (x.fwd o) o) (fun a => E.t0 o ≤ a)
-      (fun x a hq ha => assignDynAt_total hw hq ha) _ _ hready hsteps
+      (fun x a hq ha => assignDynAt_total hw (hset hod) hq ha) _ _ hready hsteps
     exact ⟨s', h1⟩
   · next hnd =>
     have hos : o ∈ s.statics := by
@@ -1743,13 +1840,14 @@ theorem assignObs_total {E : Env} {s : St} {o : Id} (hw : WfEnv E) (hin : o ∈ 
     obtain ⟨r, hr⟩ := regStatic_ok E o (E.shp o (E.t0 o)) s.sreg (fun l hl => hw.shp_sub o _ l hl)
     exact ⟨_, by rw [hr]; rfl⟩
 
-theorem assign_total {E : Env} (hw : WfEnv E) (s : St) : ∃ s', assign E none none false s = .ok s' := by
+theorem assign_total {E : Env} (hw : WfEnv E) (s : St) (hset : ∀ o, o ∈ s.dynamics → E.kind o ≠ Kind.dynSet) :
+    ∃ s', assign E none none false s = .ok s' := by
   unfold assign
   obtain ⟨s', h, _⟩ := foldlM_total (assignObs E none false)
     (fun x => x.statics = s.statics ∧ x.dynamics = s.dynamics) (fun a => a ∈ s.statics ∨ a ∈ s.dynamics)
     (by
       rintro x a ⟨q2, q3⟩ ha
-      obtain ⟨x', hx⟩ := assignObs_total (s := x) hw (by rw [q2, q3]; exact ha)
+      obtain ⟨x', hx⟩ := assignObs_total (s := x) hw (by rw [q2, q3]; exact ha) (fun hd => hset a (q3 ▸ hd))
       obtain ⟨p2, p3⟩ := assignObs_lists hx
       exact ⟨x', hx, p2.trans q2, p3.trans q3⟩)
     (s.statics ++ s.dynamics) s ⟨rfl, rfl⟩ (fun a ha => List.mem_append.mp ha)
@@ -1766,7 +1864,7 @@ theorem addToLanelets_total {E : Env} {s : St} {o : Id} (hw : WfEnv E) (hc : Coh
       · next ids hs =>
         split
         · exact ⟨_, rfl⟩
-        · exact regStatic_ok E o ids _ (fun l hl => hw.shp_sub o _ l (hc.initShape ids hs ▸ hl))
+        · exact regStatic_ok E o ids _ (fun l hl => effShp_sub hw (hc.initShape ids hs ▸ hl))
     obtain ⟨r, hr⟩ := this
     exact ⟨_, by rw [hr]; rfl⟩
   · split
@@ -1775,7 +1873,7 @@ theorem addToLanelets_total {E : Env} {s : St} {o : Id} (hw : WfEnv E) (hc : Coh
         unfold regInit
         split
         · exact ⟨_, rfl⟩
-        · next ids hs => exact regDyn_ok E o _ ids _ (fun l hl => hw.shp_sub o _ l (hc.initShape ids hs ▸ hl))
+        · next ids hs => exact regDyn_ok E o _ ids _ (fun l hl => effShp_sub hw (hc.initShape ids hs ▸ hl))
       obtain ⟨r1, hr1⟩ := h1
       have h2 : ∃ r2, regPred E o (s.fwd o) r1 = .ok r2 := by
         unfold regPred
